@@ -10,6 +10,8 @@ import SkyllhModel.Model.Load
 import SkyllhModel.Model.LoadI3
 import SkyllhModel.Proofs.Load
 import SkyllhModel.Proofs.LoadRename
+import SkyllhModel.Proofs.LoadDispatchR7
+import SkyllhModel.Proofs.LoadHeaderR7
 import SkyllhModel.Generated.C17
 import Mathlib.Tactic
 
@@ -1785,3 +1787,302 @@ example : (5 : Nat) ∉ ((⟨[⟨0, 0, [1]⟩, ⟨1, 0, [2]⟩], 1⟩ : Arr Nat 
 example : getAbsPaths (fun p : Nat => p + 100) [.rel 1, .abs 7, .rel 2] = [101, 7, 102] := by decide
 
 end examples
+
+
+/-! ## Round 7: the loader registry and the choice of the loader class (`register_FileLoader`, `create_FileLoader`) -/
+section dispatch
+open LoadR7
+variable {L : Type}
+
+/-- **The format decides the loader**: when the registered formats are non-empty and none is (ignoring ASCII
+case) a suffix of another, a file name that ends in a registered format is loaded by the class registered
+for that format - whatever the order of registration and the sort order of the formats - and the class
+gets the whole listed path list. `hd`: keys of a Python dict are distinct. -/
+theorem c17_dispatch_by_format (reg : List (Str × L)) (hd : (reg.map Prod.fst).Nodup)
+    (hs : SuffixFree (reg.map Prod.fst)) (h0 : ∀ k ∈ reg.map Prod.fst, 0 < k.length)
+    (k : Str) (cls : L) (hk : (k, cls) ∈ reg) (p : Str) (rest : List Str) (hm : fmtMatches k p = true) :
+    createLoader reg (.seq (p :: rest)) = .ok (cls, p :: rest) := by
+  have hkm : k ∈ reg.map Prod.fst := List.mem_map.2 ⟨(k, cls), hk, rfl⟩
+  have hf : firstMatch p (sortedKeys (reg.map Prod.fst)) = some k := by
+    apply firstMatch_unique ((mem_sortedKeys _ _).2 hkm) hm
+    intro g hg hgm
+    exact matches_unique hs h0 hkm ((mem_sortedKeys _ _).1 hg) hm hgm
+  simp only [createLoader, createGo, hf, regLookup_of_mem hd hk]
+
+/-- … in particular a name `stem ++ format` (any stem, any case of the extension is covered by
+`fmtMatches`) -/
+theorem c17_dispatch_by_extension (reg : List (Str × L)) (hd : (reg.map Prod.fst).Nodup)
+    (hs : SuffixFree (reg.map Prod.fst)) (h0 : ∀ k ∈ reg.map Prod.fst, 0 < k.length)
+    (k : Str) (cls : L) (hk : (k, cls) ∈ reg) (stem : Str) (rest : List Str) :
+    createLoader reg (.seq ((stem ++ k) :: rest)) = .ok (cls, (stem ++ k) :: rest) :=
+  c17_dispatch_by_format reg hd hs h0 k cls hk _ rest
+    (fmtMatches_append stem (h0 k (List.mem_map.2 ⟨(k, cls), hk, rfl⟩)))
+
+/-- a file name that no registered format matches is an error (RuntimeError), for every registry -/
+theorem c17_dispatch_unknown_format_is_error (reg : List (Str × L)) (p : Str) (rest : List Str)
+    (h : ∀ k ∈ reg.map Prod.fst, fmtMatches k p = false) :
+    createLoader reg (.seq (p :: rest)) = .error .noLoader := by
+  have hf : firstMatch p (sortedKeys (reg.map Prod.fst)) = none :=
+    firstMatch_none (fun g hg => h g ((mem_sortedKeys _ _).1 hg))
+  simp only [createLoader, createGo, hf]
+
+/-- the chosen class is always one registered for a format that matches the FIRST listed name; the other
+names of the list play no role (a list of mixed extensions is handed to the first file's loader) -/
+theorem c17_dispatch_first_file_decides (reg : List (Str × L)) (hd : (reg.map Prod.fst).Nodup)
+    (p : Str) (rest : List Str) (cls : L) (ps : List Str)
+    (h : createLoader reg (.seq (p :: rest)) = .ok (cls, ps)) :
+    ps = p :: rest ∧ (∃ k, (k, cls) ∈ reg ∧ fmtMatches k p = true) ∧
+      ∀ rest', createLoader reg (.seq (p :: rest')) = .ok (cls, p :: rest') := by
+  simp only [createLoader, createGo] at h ⊢
+  cases hf : firstMatch p (sortedKeys (reg.map Prod.fst)) with
+  | none => simp [hf] at h
+  | some f =>
+    simp only [hf] at h ⊢
+    cases hl : regLookup f reg with
+    | none => simp [hl] at h
+    | some c =>
+      simp only [hl, Except.ok.injEq, Prod.mk.injEq] at h ⊢
+      obtain ⟨rfl, rfl⟩ := h
+      have hfm := firstMatch_some hf
+      obtain ⟨⟨k', c'⟩, hmem, hk'⟩ := List.mem_map.1 ((mem_sortedKeys _ _).1 hfm.1)
+      simp only at hk'
+      subst hk'
+      have := regLookup_of_mem hd hmem
+      rw [hl] at this
+      cases this
+      exact ⟨rfl, ⟨k', hmem, hfm.2⟩, by intro _; first | trivial | exact ⟨rfl, rfl⟩⟩
+
+/-- a single name given as `str` is the one-element list -/
+theorem c17_dispatch_str_form (reg : List (Str × L)) (p : Str) :
+    createLoader reg (.str p) = createLoader reg (.seq [p]) := rfl
+
+/-- an empty path list is an IndexError, for every registry -/
+theorem c17_dispatch_empty_list (reg : List (Str × L)) : createLoader reg (.seq []) = .error .indexError := rfl
+
+/-- **Registration**: whatever the outcome, the formats registered before stay registered with their class
+(the registry only grows at the end), every new entry maps one of the given formats to the given class,
+and the keys stay distinct. -/
+theorem c17_register_extends (reg : List (Str × L)) (hd : (reg.map Prod.fst).Nodup) (formats : FmtArg)
+    (isLoader : Bool) (cls : L) :
+    (∃ added, (registerLoader reg formats isLoader cls).1 = reg ++ added ∧ ∀ e ∈ added, e.2 = cls) ∧
+    (((registerLoader reg formats isLoader cls).1).map Prod.fst).Nodup := by
+  cases formats with
+  | other => exact ⟨⟨[], by simp [registerLoader], by simp⟩, by simpa [registerLoader] using hd⟩
+  | str f =>
+    cases isLoader
+    · exact ⟨⟨[], by simp [registerLoader], by simp⟩, by simpa [registerLoader] using hd⟩
+    · obtain ⟨a, h1, h2⟩ := registerGo_prefix cls [f] reg
+      exact ⟨⟨a, by simpa [registerLoader] using h1, fun e he => (h2 e he).1⟩,
+        by simpa [registerLoader] using registerGo_nodup cls [f] reg hd⟩
+  | seq fs =>
+    cases isLoader
+    · exact ⟨⟨[], by simp [registerLoader], by simp⟩, by simpa [registerLoader] using hd⟩
+    · obtain ⟨a, h1, h2⟩ := registerGo_prefix cls fs reg
+      exact ⟨⟨a, by simpa [registerLoader] using h1, fun e he => (h2 e he).1⟩,
+        by simpa [registerLoader] using registerGo_nodup cls fs reg hd⟩
+
+/-- a format that is already registered is refused (KeyError) and the registry is unchanged -/
+theorem c17_register_existing_is_error (reg : List (Str × L)) (f : Str) (cls : L)
+    (h : f ∈ reg.map Prod.fst) : registerLoader reg (.str f) true cls = (reg, some .keyError) := by
+  simp [registerLoader, registerGo, h]
+
+/-- the registry of the current source: formats distinct, non-empty, none a suffix of another -/
+theorem c17_registry_for_current_source :
+    (Gen.C17.loaderRegistry.map Prod.fst).Nodup ∧ SuffixFree (Gen.C17.loaderRegistry.map Prod.fst) ∧
+      ∀ k ∈ Gen.C17.loaderRegistry.map Prod.fst, 0 < k.length := by
+  refine ⟨by decide, by decide, by decide⟩
+
+/-- **Every supported format reaches its loader** (current source): a file whose name ends, in any ASCII
+case, in a registered format is loaded by the class registered for it, and a name matching none is an error. -/
+theorem c17_dispatch_for_current_source (k : Str) (cls : String) (hk : (k, cls) ∈ Gen.C17.loaderRegistry)
+    (p : Str) (rest : List Str) (hm : fmtMatches k p = true) :
+    createLoader Gen.C17.loaderRegistry (.seq (p :: rest)) = .ok (cls, p :: rest) :=
+  c17_dispatch_by_format _ c17_registry_for_current_source.1 c17_registry_for_current_source.2.1
+    c17_registry_for_current_source.2.2 k cls hk p rest hm
+
+/-- non-vacuity: `data/exp.NPY` and `x.csv` with the generated registry; `x.txt`; a registry in which `.gz`
+is a suffix of `.csv.gz` (outside `SuffixFree`): the sort order decides (`.csv.gz` < `.gz`) -/
+example : fmtMatches [46, 110, 112, 121] [100, 47, 101, 46, 78, 80, 89] = true := by decide
+example : (createLoader Gen.C17.loaderRegistry (.seq [[100, 47, 101, 46, 78, 80, 89], [120]])).toOption.map Prod.snd =
+    some [[100, 47, 101, 46, 78, 80, 89], [120]] := by decide
+example : createLoader Gen.C17.loaderRegistry (.str [120, 46, 116, 120, 116]) = .error .noLoader := by decide
+example : createLoader [([46, 103, 122], 1), ([46, 99, 115, 118, 46, 103, 122], 2)]
+    (.str [97, 46, 99, 115, 118, 46, 103, 122]) = .ok (2, [[97, 46, 99, 115, 118, 46, 103, 122]]) := by decide
+example : registerLoader [([46, 97], 1)] (.seq [[46, 98], [46, 97], [46, 99]]) true 2 =
+    ([([46, 97], 1), ([46, 98], 2)], some .keyError) := by decide
+
+end dispatch
+
+/-! ## Round 7: the table header of a text file (`TextFileLoader._extract_column_names`, `usecols`) -/
+section header
+open LoadR7
+
+/-- **Header round trip** (whitespace-separated header, the default): a first line
+`<ws> comment <ws> name name … <ws>` - any amount of whitespace before the comment string, after it and at
+the end of the line, names joined by blanks - is read back as exactly the listed names, in order, provided the
+comment string is non-empty without whitespace and the names are non-empty and contain neither whitespace
+nor a character of the comment string. -/
+theorem c17_header_roundtrip (comment lead mid tail : Str) (names : List Str)
+    (hc : comment ≠ []) (hcs : ∀ c ∈ comment, isSpace c = false)
+    (hlead : ∀ c ∈ lead, isSpace c = true) (hmid : ∀ c ∈ mid, isSpace c = true)
+    (htail : ∀ c ∈ tail, isSpace c = true) (hne : names ≠ [])
+    (hn : ∀ n ∈ names, n ≠ [] ∧ ∀ c ∈ n, isSpace c = false ∧ comment.contains c = false) :
+    extractColumnNames comment none (lead ++ comment ++ mid ++ joinSp names ++ tail) = .ok (some names) := by
+  obtain ⟨a, ct, rfl⟩ := List.exists_cons_of_ne_nil hc
+  obtain ⟨b, bt, bi, z, hb, hz, hPb, hPz⟩ :=
+    joinSp_ends names hne (fun c => isSpace c = false ∧ (a :: ct).contains c = false) hn
+  obtain ⟨h1, h2⟩ := header_body (a :: ct) lead mid (joinSp names) tail ct bt bi a b z rfl hcs hlead hmid
+    htail hb hz hPb.1 hPz.1 hPb.2 hPz.2
+  have htake : ((a :: ct) ++ mid ++ joinSp names).take (a :: ct).length = a :: ct := by
+    rw [List.append_assoc]; simp
+  have hmap : names.map (stripBy isSpace) = names := by
+    conv_rhs => rw [← List.map_id names]
+    apply List.map_congr_left
+    intro n hn'
+    exact stripBy_none n (fun c hc' => ((hn n hn').2 c hc').1)
+  have hsplit := splitWs_joinSp names (fun n hn' => ⟨(hn n hn').1, fun c hc' => ((hn n hn').2 c hc').1⟩)
+  simp only [extractColumnNames, h1, htake, h2, hsplit, hmap, bne_self_eq_false, Bool.false_eq_true, if_false]
+  cases names with
+  | nil => exact absurd rfl hne
+  | cons _ _ => rfl
+
+/-- the defaults of the current source (`header_comment`, `header_separator = None`) are inside the proved region -/
+theorem c17_header_roundtrip_for_current_source (lead mid tail : Str) (names : List Str)
+    (hlead : ∀ c ∈ lead, isSpace c = true) (hmid : ∀ c ∈ mid, isSpace c = true)
+    (htail : ∀ c ∈ tail, isSpace c = true) (hne : names ≠ [])
+    (hn : ∀ n ∈ names, n ≠ [] ∧ ∀ c ∈ n, isSpace c = false ∧ Gen.C17.headerComment.contains c = false) :
+    extractColumnNames Gen.C17.headerComment Gen.C17.headerSeparator
+      (lead ++ Gen.C17.headerComment ++ mid ++ joinSp names ++ tail) = .ok (some names) := by
+  have hs : Gen.C17.headerSeparator = none := rfl
+  rw [hs]
+  exact c17_header_roundtrip _ lead mid tail names (by decide) (by decide) hlead hmid htail hne hn
+
+/-- **Selected columns**: with `keep_fields` the loaded fields are the header names listed in `keep_fields`, in
+file order, each read (`usecols`) from the file column that carries its name; nothing selected is an error;
+without `keep_fields` all columns are read. A first line that is no header is an error. -/
+theorem c17_header_usecols (comment : Str) (sep : Option Str) (line : Str) (cols keep : List Str)
+    (h : extractColumnNames comment sep line = .ok (some cols)) :
+    (cols.filter (fun n => keep.contains n) = [] →
+      headerSelect comment sep line (some keep) = .error .noColumns) ∧
+    (∀ (names : List Str) (idx : List Nat), headerSelect comment sep line (some keep) = .ok (names, some idx) →
+      names = cols.filter (fun n => keep.contains n) ∧ names.length = idx.length ∧
+      ∀ (k : Nat) (n : Str) (j : Nat), names[k]? = some n → idx[k]? = some j → cols[j]? = some n) := by
+  have hnames := usecolsGo_names keep 0 cols
+  constructor
+  · intro he
+    rw [he, List.map_eq_nil_iff] at hnames
+    simp [headerSelect, h, hnames]
+  · intro names idx hr
+    simp only [headerSelect, h] at hr
+    split_ifs at hr with hemp
+    simp only [Except.ok.injEq, Prod.mk.injEq, Option.some.injEq] at hr
+    obtain ⟨rfl, rfl⟩ := hr
+    refine ⟨hnames, by simp, ?_⟩
+    intro k n j hk hj
+    rw [List.getElem?_map] at hk hj
+    cases he : (usecolsGo keep 0 cols)[k]? with
+    | none => simp [he] at hk
+    | some e =>
+      simp only [he, Option.map_some, Option.some.injEq] at hk hj
+      have hmem : (j, n) ∈ usecolsGo keep 0 cols := by
+        have := List.mem_of_getElem? he
+        rw [← hk, ← hj]; exact this
+      simpa using (usecolsGo_index keep 0 cols j n hmem).2.1
+
+theorem c17_header_all_columns (comment : Str) (sep : Option Str) (line : Str) (cols : List Str)
+    (h : extractColumnNames comment sep line = .ok (some cols)) (hne : cols ≠ []) :
+    headerSelect comment sep line none = .ok (cols, none) := by
+  cases cols with
+  | nil => exact absurd rfl hne
+  | cons c cs => simp [headerSelect, h]
+
+theorem c17_header_missing_is_error (comment : Str) (sep : Option Str) (line : Str) (keep : Option (List Str))
+    (h : extractColumnNames comment sep line = .ok none) :
+    headerSelect comment sep line keep = .error .valueError := by
+  simp [headerSelect, h]
+
+/-- a first line that does not start (after whitespace) with the comment string is no header -/
+theorem c17_header_not_a_comment_line (comment : Str) (sep : Option Str) (line : Str)
+    (h : (stripBy isSpace line).take comment.length ≠ comment) :
+    extractColumnNames comment sep line = .ok none := by
+  simp [extractColumnNames, h]
+
+/-- non-vacuity: `"  # ra  dec\n"`, keep `dec`; `"ra dec\n"`; and an observation outside the hypotheses:
+a last name ending in the comment character loses it (`"# a q#"` gives `a`, `q`) -/
+example : extractColumnNames [35] none [32, 32, 35, 32, 114, 97, 32, 32, 100, 101, 99, 10] =
+    .ok (some [[114, 97], [100, 101, 99]]) := by decide
+example : headerSelect [35] none [32, 32, 35, 32, 114, 97, 32, 32, 100, 101, 99, 10] (some [[100, 101, 99], [120]]) =
+    .ok ([[100, 101, 99]], some [1]) := by decide
+example : headerSelect [35] none [114, 97, 32, 100, 101, 99, 10] none = .error .valueError := by decide
+example : extractColumnNames [35] (some [44]) [35, 114, 97, 32, 44, 32, 100, 10] = .ok (some [[114, 97], [100]]) := by
+  decide
+example : extractColumnNames [35] none [35, 32, 97, 32, 113, 35, 10] = .ok (some [[97], [113]]) := by decide
+example : joinSp [[114, 97], [100, 101, 99]] = [114, 97, 32, 100, 101, 99] := by decide
+
+end header
+
+/-! ## Round 7 (continued): the sorted order of the formats; explicit header separator -/
+
+open LoadR7 in
+/-- **Which format wins** (any registry, also with formats that are suffixes of one another): the chosen class
+is registered for the least (in Python's `str` order = `sorted`) of all formats matching the first name. -/
+theorem c17_dispatch_least_matching_format {L : Type} (reg : List (Str × L)) (hd : (reg.map Prod.fst).Nodup)
+    (p : Str) (rest : List Str) (cls : L) (ps : List Str)
+    (h : createLoader reg (.seq (p :: rest)) = .ok (cls, ps)) :
+    ∃ k, (k, cls) ∈ reg ∧ fmtMatches k p = true ∧
+      ∀ k' ∈ reg.map Prod.fst, fmtMatches k' p = true → strLt k' k = false := by
+  simp only [createLoader, createGo] at h
+  cases hf : firstMatch p (sortedKeys (reg.map Prod.fst)) with
+  | none => simp [hf] at h
+  | some f =>
+    simp only [hf] at h
+    cases hl : regLookup f reg with
+    | none => simp [hl] at h
+    | some c =>
+      simp only [hl, Except.ok.injEq, Prod.mk.injEq] at h
+      obtain ⟨rfl, rfl⟩ := h
+      have hfm := firstMatch_some hf
+      obtain ⟨⟨k', c'⟩, hmem, hk'⟩ := List.mem_map.1 ((mem_sortedKeys _ _).1 hfm.1)
+      simp only at hk'
+      subst hk'
+      have := regLookup_of_mem hd hmem
+      rw [hl] at this
+      cases this
+      refine ⟨k', hmem, hfm.2, ?_⟩
+      intro g hg hgm
+      exact firstMatch_least (sortedKeys_ascending _) hf g ((mem_sortedKeys _ _).2 hg) hgm
+
+open LoadR7 in
+/-- **Header round trip with an explicit one-character separator** (`header_separator=','` …): the names joined
+by the separator are read back exactly, in order (names non-empty, without whitespace, comment characters and
+the separator). -/
+theorem c17_header_roundtrip_separator (comment lead mid tail : Str) (s : Nat) (names : List Str)
+    (hc : comment ≠ []) (hcs : ∀ c ∈ comment, isSpace c = false)
+    (hlead : ∀ c ∈ lead, isSpace c = true) (hmid : ∀ c ∈ mid, isSpace c = true)
+    (htail : ∀ c ∈ tail, isSpace c = true) (hne : names ≠ [])
+    (hn : ∀ n ∈ names, n ≠ [] ∧ ∀ c ∈ n, (isSpace c = false ∧ comment.contains c = false) ∧ c ≠ s) :
+    extractColumnNames comment (some [s]) (lead ++ comment ++ mid ++ joinBy s names ++ tail) =
+      .ok (some names) := by
+  obtain ⟨a, ct, rfl⟩ := List.exists_cons_of_ne_nil hc
+  obtain ⟨b, bt, bi, z, hb, hz, hPb, hPz⟩ :=
+    joinBy_ends s names hne (fun c => isSpace c = false ∧ (a :: ct).contains c = false)
+      (fun n hn' => ⟨(hn n hn').1, fun c hc' => ((hn n hn').2 c hc').1⟩)
+  obtain ⟨h1, h2⟩ := header_body (a :: ct) lead mid (joinBy s names) tail ct bt bi a b z rfl hcs hlead hmid
+    htail hb hz hPb.1 hPz.1 hPb.2 hPz.2
+  have htake : ((a :: ct) ++ mid ++ joinBy s names).take (a :: ct).length = a :: ct := by
+    rw [List.append_assoc]; simp
+  have hmap : names.map (stripBy isSpace) = names := by
+    conv_rhs => rw [← List.map_id names]
+    apply List.map_congr_left
+    intro n hn'
+    exact stripBy_none n (fun c hc' => ((hn n hn').2 c hc').1.1)
+  have hsplit : splitSep [s] (joinBy s names) = names :=
+    splitSep_joinBy s names hne (fun n hn' c hc' => ((hn n hn').2 c hc').2) _ (le_refl _)
+  simp only [extractColumnNames, h1, htake, h2, hsplit, hmap, bne_self_eq_false, Bool.false_eq_true, if_false]
+  cases names with
+  | nil => exact absurd rfl hne
+  | cons _ _ => rfl
+
+open LoadR7 in
+example : extractColumnNames [35] (some [44]) ([32] ++ [35] ++ [32] ++ joinBy 44 [[114, 97], [100]] ++ [10]) =
+    .ok (some [[114, 97], [100]]) := by decide
